@@ -22,11 +22,12 @@ def run(ctx):
     n = 3000 if ctx.quick else 60000
     tf = os.path.join(ctx.work, "once.txt")
     rc, out = core.sh([bins["onceobj"], str(ctx.seed), str(n), tf], timeout=2400)
-    if rc != 0:
+    hang = [l.strip() for l in open(tf) if " HANG " in l] if os.path.exists(tf) else []
+    if rc != 0 and not hang:
         raise RuntimeError("onceobj failed: " + out[-2000:])
     rc, vout = core.sh([model, tf], timeout=1500)
     verdicts = vout.splitlines()
-    headers = [l for l in open(tf) if l.startswith("# case")]
+    headers = [l for l in open(tf) if l.startswith("# case") and " HANG " not in l]
     direct = []
     dist = dict(driven=0, free=0, empty_block=0, successive=0, entries={})
     for h in headers:
@@ -47,7 +48,10 @@ def run(ctx):
             direct.append("take_result_and_state() before any execution is not empty/untouched: " + h.strip())
     bad = [v for v in verdicts if not v.startswith("ACCEPT")]
     broken = list(proof["problems"])
-    if direct:
+    if hang:
+        ctx.violation("a call on a scheduler whose block was already started never returned (no only-once error, no result)",
+                      dict(cases=hang, replay="target/release/onceobj %d %d <out>  (stops at the hanging case)" % (ctx.seed, n), seed=ctx.seed), True)
+    elif direct:
         ctx.violation("the block ran more (or less) than once / a losing call touched state", dict(cases=direct[:3], replay="target/release/onceobj %d %d <out>" % (ctx.seed, n), seed=ctx.seed), True)
     elif bad or broken:
         broken += ["entry-point race trace rejected by the Coq acceptor: " + v[:300] for v in bad[:3]]
